@@ -109,7 +109,7 @@ def same_state(a, b, rel=2**-40):
             return False
         x = np.frombuffer(a["data"], dtype=a["dtype"])
         y = np.frombuffer(b["data"], dtype=b["dtype"])
-        return x.shape == y.shape and bool(np.allclose(x, y, rtol=0, atol=1e-9 * max(1.0, float(np.abs(x).max(initial=0)))))
+        return x.shape == y.shape and bool(np.allclose(x, y, rtol=0, atol=1e-9 * float(np.abs(x).max(initial=0))))   # relative to the data's own magnitude
     if "region" in a:
         return (reg(a["region"], b["region"]) and a["n"] == b["n"] and a["bc"] == b["bc"]
                 and [k for k, _ in a["subs"]] == [k for k, _ in b["subs"]]
@@ -118,6 +118,7 @@ def same_state(a, b, rel=2**-40):
 
 
 def run_impl(case):
+    del tc.ARG_CHANGED[:]
     obs = {"oracle": [], "tags": [f"kind:{case['obj']['kind']}", f"len:{len(case['ops'])}"] + (["extreme"] if case.get("extreme") else [])}
     fail = obs["oracle"].append
     cur = tc.build_object(case["obj"])
@@ -207,6 +208,9 @@ def run_impl(case):
     obs["steps"] = steps
     obs["tags"] += [f"accepted:{min(accepted, 5)}", f"rejected:{min(len(case['ops']) - accepted, 3)}"]
     obs["nontrivial"] = accepted >= 2 and nontransl >= 1
+    for text in tc.ARG_CHANGED:
+        obs["oracle"].append(text)
+    del tc.ARG_CHANGED[:]
     return obs
 
 
@@ -301,7 +305,7 @@ def cmp_json(name, a, b, dis):
         if len(a["data"]) != len(b["data"]):
             dis.append(f"{name}: cell count impl {len(a['data'])} vs model {len(b['data'])}")
             return
-        sc = max([abs(F(x)) for row in b["data"] for x in row] + [Fraction(1)])
+        sc = max([abs(F(x)) for row in b["data"] for x in row] + [Fraction(0)])      # the data's own magnitude (values go down to 1e-18)
         for k, (ra, rb) in enumerate(zip(a["data"], b["data"])):
             if len(ra) != len(rb) or any(abs(F(x) - F(y)) > sc * Fraction(1, 2**36) for x, y in zip(ra, rb)):
                 dis.append(f"{name}: value at flat cell {k}: impl {ra} vs model {rb}")
